@@ -54,7 +54,131 @@ def generate(seed, tier):
         cont = bool(meta["draws"])
         cases.append({"id": f"gen-{cs}", "text": program_str(prog), "ast": prog.to_json(), "params": K.frac_enc(params),
                       "inits": K.frac_enc(inits), "goals": goals, "N": 3 if cont else 5, "features": feats})
-    return cases
+    cl = classification_cases(seed, tier)
+    # interleave the cheap classification cases
+    out = []
+    step = max(1, len(cases) // max(1, len(cl)))
+    for i, c in enumerate(cases):
+        out.append(c)
+        if i % step == 0 and cl:
+            out.append(cl.pop(0))
+    return out + cl
+
+
+# ---------------------------------------------------------------- classification cases (effective / defective variables)
+def classification_cases(seed, tier):
+    """small polynomial loops with and without non-linear dependency cycles; the same dependency appears both linearly and
+    non-linearly, in every order of terms / branches, so that the 'strongest edge wins' rule is exercised"""
+    from ..lang.ast import Program, num, var, binop
+    out = []
+    n = 30 if tier == "quick" else 400
+    for i in range(n):
+        cs = K.harness_seed(seed, ID + "-classify", i)
+        rng = random.Random(cs)
+        nv = rng.choice([1, 2, 2, 3])
+        vs = ["x", "y", "z"][:nv]
+        body = []
+        for v in vs:
+            terms = []
+            for _ in range(rng.choice([1, 2, 3])):
+                w = rng.choice(vs)
+                k = rng.random()
+                if k < 0.35:
+                    terms.append(binop("**", var(w), num(rng.choice([2, 2, 3]))))
+                elif k < 0.55 and nv >= 2:
+                    w2 = rng.choice(vs)
+                    terms.append(binop("*", var(w), var(w2)))
+                else:
+                    terms.append(binop("*", num(rng.choice([1, 2, Fraction(1, 2)])), var(w)))
+            if rng.random() < 0.5:
+                terms.append(num(rng.choice([1, -1, 2])))
+            rng.shuffle(terms)
+            if len(terms) >= 2 and rng.random() < 0.4:
+                # probabilistic choice between the terms (each alternative is its own polynomial)
+                k2 = min(len(terms), 3)
+                alts = terms[:k2]
+                ps = [Fraction(1, k2)] * k2
+                rhs = ("choice", [(a, num(p)) for a, p in zip(alts, ps)])
+            else:
+                e = terms[0]
+                for t in terms[1:]:
+                    e = binop("+", e, t)
+                rhs = ("poly", e)
+            body.append(("assign", v, rhs))
+        rng.shuffle(body)
+        init = [("assign", v, ("poly", num(rng.choice([1, 2, Fraction(1, 2)])))) for v in vs]
+        prog = Program([], init, ("true",), body)
+        out.append({"id": f"classify-{cs}", "kind": "classify", "text": program_str(prog), "ast": prog.to_json(), "features": ["classification"]})
+    return out
+
+
+def true_defective(prog):
+    """independent classification on the source AST: variable dependency graph with linear / non-linear edges (every variable of
+    these cases is unbounded); defective = on a cycle containing a non-linear edge, or depending on such a variable"""
+    from ..ref.engine import AP, eval_expr
+    vs = program_variables(prog)
+    lin = {v: set() for v in vs}     # v depends on w (any edge)
+    nonlin = {v: set() for v in vs}  # v depends non-linearly on w
+    for st in prog.body:
+        v, rhs = st[1], st[2]
+        polys = [rhs[1]] if rhs[0] == "poly" else [e for e, _ in rhs[1]]
+        for e in polys:
+            val = eval_expr(e, {w: AP.gen(("v", w)) for w in vs})
+            if not isinstance(val, AP):
+                continue
+            for mono in val.t:
+                deg = sum(p for _, p in mono)
+                for (aid, _kind), p in mono:
+                    w = aid[1]
+                    lin[v].add(w)
+                    if deg >= 2:
+                        nonlin[v].add(w)
+
+    def reach(src):
+        seen, todo = set(), [src]
+        while todo:
+            a = todo.pop()
+            for b in lin[a]:
+                if b not in seen:
+                    seen.add(b)
+                    todo.append(b)
+        return seen
+    on_cycle = set()
+    for v in vs:
+        for w in nonlin[v]:
+            # edge v <- w is non-linear; it lies on a cycle iff w depends (transitively) on v, or w == v
+            if w == v or v in reach(w):
+                on_cycle.add(v)
+                on_cycle.add(w)
+    defective = set(on_cycle)
+    for v in vs:
+        if reach(v) & on_cycle:
+            defective.add(v)
+    return defective
+
+
+def run_classify(case, tier):
+    prog = Program.from_json(case["ast"])
+    res = {"fingerprint": K.fingerprint(case["text"]), "features": case["features"], "events": {}, "violations": [], "comparisons": 0,
+           "refusals": [], "extra": {}}
+    truth = true_defective(prog)
+    P.reset_settings()
+    try:
+        program, rb = P.prepare(case["text"])
+        res["events"]["SolvabilityChecker.get_variables"] = 1
+    except Exception as e:
+        res.update(verdict="inconclusive", reason="refused", refusal=P.refusal_key(e))
+        return res
+    eff = {str(v) for v in program.effective_variables}
+    res["comparisons"] = len(truth) + 1
+    wrong = sorted(v for v in truth if v in eff)
+    if wrong:
+        res["violations"].append({"kind": "defective-variable-classified-effective", "key": None,
+                                  "detail": f"variables {wrong} lie on (or depend on) a non-linear dependency cycle but are classified effective: their moment systems are infinite\n{case['text']}"})
+    res["nontrivial"] = bool(truth)
+    res["verdict"] = "violated" if wrong else "held"
+    res["sample"] = {"program": case["text"], "truly_defective": sorted(truth), "classified_effective": sorted(eff)}
+    return res
 
 
 def worker_init(tier):
@@ -104,6 +228,8 @@ def in_documented_class(prog, params, inits):
 
 
 def run_case(case, tier):
+    if case.get("kind") == "classify":
+        return run_classify(case, tier)
     prog = Program.from_json(case["ast"])
     params = K.frac_dec(case["params"])
     inits = K.frac_dec(case["inits"])
